@@ -557,4 +557,89 @@ def rawKeyChecksOut : Bool := Askar.Generated.Flags.ffiRawKeyChecksOut
 def generateRawKeyOut (outNull : Bool) : RawKeyOutcome :=
   if outNull then (if rawKeyChecksOut then .inputError else .segfault) else .ok
 
+/-! ## Sites that were repaired after this check found them (D32, D33, D34)
+
+Each site keeps BOTH variants, selected by a `Bool`; the `current…` definitions read the flag that
+tools/extract.py derives from the source (`Generated/Flags.lean`), so the model follows the tree it
+is run against. -/
+
+/-! ### D32 — `PassKey::as_ref` on the re-key path -/
+
+/-- store key method up to what matters for resolving a NEW key -/
+inductive MethodClass | raw | unprotected | kdf
+  deriving DecidableEq, Repr, Inhabited
+
+/-- `PassKey::as_ref`: the repaired version keeps an absent pass key absent
+    (`self.0.as_ref().map(..)`); the old one went through `Deref` and produced `Some("")`. -/
+def passKeyAsRefG (keepsNone : Bool) (p : Option String) : Option String :=
+  if keepsNone then p else some (p.getD "")
+
+/-- `StoreKeyMethod::resolve` for a NEW key, preceded by `rekey`'s own refusal of a blank raw key
+    (`pass_key.is_empty()` is `str::is_empty` through `Deref`: absent and "" alike).
+    `validRaw` = "is the base58 encoding of 32 bytes" (modelled in C08; a parameter here). -/
+def resolveNewKey (validRaw : String → Bool) (m : MethodClass) (p : Option String) : Except Err Unit :=
+  match m with
+  | .raw =>
+    match p with
+    | none => .error .input                                   -- "Cannot re-key a store with a blank raw key"
+    | some k => if k.isEmpty then .error .input else if validRaw k then .ok () else .error .input
+  | .unprotected => .ok ()
+  | .kdf =>
+    match p with
+    | none => .error .input                                   -- "Key derivation password not provided"
+    | some _ => .ok ()
+
+/-- `Store::rekey(method, pass_key)` through the Rust API: the pass key as the caller gave it -/
+def rekeyRust (validRaw : String → Bool) (m : MethodClass) (p : Option String) : Except Err Unit :=
+  resolveNewKey validRaw m p
+
+/-- `askar_store_rekey`: `PassKey::from(pass_key.as_opt_str()).into_owned()`, then
+    `store.rekey(key_method, pass_key.as_ref())` -/
+def rekeyFfiG (keepsNone : Bool) (validRaw : String → Bool) (m : MethodClass) (pass : CStr) : Except Err Unit :=
+  resolveNewKey validRaw m (passKeyAsRefG keepsNone pass.asOptStr)
+
+/-- whether the CURRENT source keeps `None` (tools/extract.py → `Generated.Flags.passKeyAsRefKeepsNone`) -/
+def passKeyAsRefKeepsNone : Bool := Askar.Generated.Flags.passKeyAsRefKeepsNone
+
+/-- `PassKey::as_ref` / `askar_store_rekey` of the current tree -/
+def passKeyAsRef (p : Option String) : Option String := passKeyAsRefG passKeyAsRefKeepsNone p
+def rekeyFfi (validRaw : String → Bool) (m : MethodClass) (pass : CStr) : Except Err Unit :=
+  rekeyFfiG passKeyAsRefKeepsNone validRaw m pass
+
+/-! ### D33 — the error slot (`LAST_ERROR`) and the `order_by` rejection -/
+
+/-- `LAST_ERROR` reduced to the code `askar_get_current_error` would report (0 = none) -/
+abbrev ErrSlot := Nat
+
+/-- `set_last_error(Some(err))`: every `catch_err!` error return and every error handed to a callback -/
+def setLastError (c : Code) (_ : ErrSlot) : Code × ErrSlot := (c, c.num)
+
+/-- the `order_by` check ahead of `catch_err!` in `askar_scan_start` / `askar_session_fetch_all`:
+    the repaired version returns through `set_last_error`, the old one `return ErrorCode::Unsupported` -/
+def orderByRejectG (recorded : Bool) (s : ErrSlot) : Code × ErrSlot :=
+  if recorded then setLastError .unsupported s else (.unsupported, s)
+
+/-- `askar_get_current_error` with a valid out-pointer: reports the slot and empties it (`Option::take`) -/
+def takeCurrentError (s : ErrSlot) : Nat × ErrSlot := (s, 0)
+
+def orderByErrorRecorded : Bool := Askar.Generated.Flags.ffiOrderByErrorRecorded
+
+/-- the `order_by` rejection of the current tree -/
+def orderByReject (s : ErrSlot) : Code × ErrSlot := orderByRejectG orderByErrorRecorded s
+
+/-! ### D34 — `askar_get_current_error` and its out-pointer -/
+
+/-- `askar_get_current_error(out)`: outcome, what is written through `out`, the slot afterwards.
+    The repaired version returns `ErrorCode::Input` for NULL (without touching the slot); the old
+    one wrote through the pointer unconditionally. -/
+def getCurrentErrorG (checksOut : Bool) (outNull : Bool) (s : ErrSlot) : RawKeyOutcome × Option Nat × ErrSlot :=
+  if outNull then (if checksOut then (.inputError, none, s) else (.segfault, none, s))
+  else (.ok, some (takeCurrentError s).1, (takeCurrentError s).2)
+
+def currentErrorChecksOut : Bool := Askar.Generated.Flags.ffiCurrentErrorChecksOut
+
+/-- `askar_get_current_error` of the current tree -/
+def getCurrentError (outNull : Bool) (s : ErrSlot) : RawKeyOutcome × Option Nat × ErrSlot :=
+  getCurrentErrorG currentErrorChecksOut outNull s
+
 end Askar.Ffi
